@@ -71,9 +71,20 @@ def lcFormula (n : Nat) (M : Adj) (v : Nat) : Adj := matMul n M (lcBracket n M v
 def localCompGraph (n : Nat) (A : Adj) (v : Nat) : Adj :=
   fun i j => if i = j then false else lcFormula n A v i j
 
+/-- `local_comp_graph` on a tabulated graph -/
+def lcStep (g : BMat) (v : Nat) : BMat := (BMat.ofAdj g.r (localCompGraph g.r g.f v)).norm
+
 /-- with the Python's `assert n_nodes > node_id >= 0` -/
 def localCompGraph? (g : BMat) (v : Nat) : Except Err BMat :=
-  if v < g.r then .ok (BMat.ofAdj g.r (localCompGraph g.r g.f v)).norm else .error .assertion
+  if v < g.r then .ok (lcStep g v) else .error .assertion
+
+/-- successive `local_comp_graph` calls along a vertex sequence (stops at the first failed assertion) -/
+def applyScript (g : BMat) : List Nat → Except Err BMat
+  | [] => .ok g
+  | v :: vs =>
+    match localCompGraph? g v with
+    | .error e => .error e
+    | .ok h => applyScript h vs
 
 /-- `itertools.combinations(l, 2)` -/
 def combos2 : List Nat → List (Nat × Nat)
@@ -91,6 +102,17 @@ def localCompPairs (n : Nat) (A : Adj) (v : Nat) : Adj :=
 /-- `Graph.get_neighbors` raises `ValueError` for a node that is not in the graph -/
 def localCompPairs? (g : BMat) (v : Nat) : Except Err BMat :=
   if v < g.r then .ok (BMat.ofAdj g.r (localCompPairs g.r g.f v)).norm else .error .value
+
+/-- the graphs reached by each of a list of scripted sequences, in order -/
+def applyScripts (g : BMat) : List (List Nat) → Except Err (List BMat)
+  | [] => .ok []
+  | ops :: rest =>
+    match applyScript g ops with
+    | .error e => .error e
+    | .ok h =>
+      match applyScripts g rest with
+      | .error e => .error e
+      | .ok hs => .ok (h :: hs)
 
 /-- a sequence of local complementations (what a returned vertex sequence means) -/
 def applySeq (A : Adj) (vs : List Nat) : Adj := vs.foldl localComp A
@@ -202,7 +224,7 @@ def lcOrbitNodes (cfg : OrbCfg) (iso : BMat → BMat → Bool) (g : BMat) (lenBe
   | node :: rest, orbit =>
     let orbit1 :=
       if degree g.r g.f node > 1 then
-        let glc := (BMat.ofAdj g.r (localCompGraph g.r g.f node)).norm
+        let glc := lcStep g node
         if !cfg.repAllowed then
           if !checkIsomorphism iso glc orbit cfg.withIso then orbit ++ [glc] else orbit
         else orbit ++ [glc]
@@ -227,23 +249,24 @@ def lcOrbitGraphs (cfg : OrbCfg) (iso : BMat → BMat → Bool) (lenBefore : Nat
     if returned then (orbit1, true, nodeList1, shuffles1)
     else lcOrbitGraphs cfg iso lenBefore rest nodeList1 shuffles1 orbit1
 
+/-- `cond(i)`: `True` without a depth, `i < comp_depth` otherwise -/
+def depthOk (d : Option Nat) (i : Nat) : Bool :=
+  match d with
+  | none => true
+  | some d => decide (i < d)
+
 /-- the `while cond(i)` loop -/
 def lcOrbitWhile (cfg : OrbCfg) (iso : BMat → BMat → Bool) :
     Nat → Nat → Nat → List Nat → List (List Nat) → List BMat → Except Err (List BMat)
   | 0, _, _, _, _, _ => .error .runtime      -- out of fuel: the Python would not have terminated within the bound
   | fuel + 1, i, newGraphs, nodeList, shuffles, orbit =>
-    let go : Bool := match cfg.compDepth with | none => true | some d => decide (i < d)
-    if !go then .ok orbit
-    else
-      let lenBefore := orbit.length
+    if depthOk cfg.compDepth i then
       -- `orbit_list[-new_graphs:]`: the last `new_graphs` entries (the whole list when `new_graphs ≥ len`)
-      let recent := orbit.drop (orbit.length - newGraphs)
-      let (orbit1, returned, nodeList1, shuffles1) := lcOrbitGraphs cfg iso lenBefore recent nodeList shuffles orbit
-      if returned then .ok orbit1
-      else
-        let ng := orbit1.length - lenBefore
-        if ng = 0 then .ok orbit1
-        else lcOrbitWhile cfg iso fuel (i + 1) ng nodeList1 shuffles1 orbit1
+      let res := lcOrbitGraphs cfg iso orbit.length (orbit.drop (orbit.length - newGraphs)) nodeList shuffles orbit
+      if res.2.1 then .ok res.1
+      else if res.1.length - orbit.length = 0 then .ok res.1
+      else lcOrbitWhile cfg iso fuel (i + 1) (res.1.length - orbit.length) res.2.2.1 res.2.2.2 res.1
+    else .ok orbit
 
 /-- `lc_orbit_finder(graph, comp_depth, orbit_size_thresh, with_iso, rand, rep_allowed)`.
     `draws`: the values of `np.random.randint(0, len(graph))` of the initial random walk;
@@ -255,7 +278,7 @@ def lcOrbitFinder (cfg : OrbCfg) (iso : BMat → BMat → Bool) (fuel : Nat) (g 
   let start : Except Err (List BMat) :=
     if cfg.rand then
       let k := min 10 n
-      match (draws.take k).foldlM (fun acc v => localCompGraph? acc v) g with
+      match applyScript g (draws.take k) with
       | .error e => .error e
       | .ok h => .ok [h]
     else .ok [g]
@@ -264,6 +287,17 @@ def lcOrbitFinder (cfg : OrbCfg) (iso : BMat → BMat → Bool) (fuel : Nat) (g 
   | .ok orbit0 =>
     if cfg.sizeThresh = some 1 then .ok orbit0
     else lcOrbitWhile cfg iso fuel 0 1 (List.range n) shuffles orbit0
+
+/-- the `while core_nodes:` loop of `rgs_orbit_finder` (`cur` is `g_lc`) -/
+def rgsGo (first : Nat) : Nat → List Nat → BMat → List BMat → List BMat
+  | 0, _, _, acc => acc
+  | _ + 1, [], _, acc => acc
+  | f + 1, c :: cs, cur, acc =>
+    let a := lcStep cur c
+    let b := lcStep a first
+    match cs with
+    | [] => acc ++ [a, b]
+    | c2 :: cs2 => rgsGo first f cs2 (lcStep a c2) (acc ++ [a, b, lcStep a c2])
 
 /-- `rgs_orbit_finder(graph)` -/
 def rgsOrbitFinder (g : BMat) : Except Err (List BMat) :=
@@ -275,22 +309,7 @@ def rgsOrbitFinder (g : BMat) : Except Err (List BMat) :=
   else
     match core with
     | [] => .error .index
-    | first :: rest =>
-      let lc (h : BMat) (v : Nat) : BMat := (BMat.ofAdj n (localCompGraph n h.f v)).norm
-      let g1 := lc g first
-      let rec go (fuel : Nat) (cores : List Nat) (cur : BMat) (acc : List BMat) : List BMat :=
-        match fuel, cores with
-        | 0, _ => acc
-        | _, [] => acc
-        | f + 1, c :: cs =>
-          let a := lc cur c
-          let b := lc a first
-          match cs with
-          | [] => acc ++ [a, b]
-          | c2 :: cs2 =>
-            let d := lc a c2
-            go f cs2 d (acc ++ [a, b, d])
-      .ok (go (rest.length + 1) rest g1 [g, g1])
+    | first :: rest => .ok (rgsGo first (rest.length + 1) rest (lcStep g first) [g, lcStep g first])
 
 /-- Python `list.insert(k, v)` (an index past the end appends) -/
 def pyInsert {α : Type} (l : List α) (k : Nat) (v : α) : List α := l.take k ++ v :: l.drop k
@@ -337,16 +356,13 @@ def partialOrbit (n : Nat) : List (List Nat) :=
 
 def maxDegree (n : Nat) (A : Adj) : Nat := (List.range n).foldl (fun m v => max m (degree n A v)) 0
 
-/-- apply a scripted sequence with `local_comp_graph` (and its assertion) -/
-def applyScript (g : BMat) (ops : List Nat) : Except Err BMat := ops.foldlM (fun acc v => localCompGraph? acc v) g
-
 /-- `linear_partial_orbit(graph)` -/
 def linearPartialOrbit (g : BMat) : Except Err (List BMat) :=
   let n := g.r
   -- n = 0: `n - 1 == graph.size()` is already false
   if n = 0 then .error .assertion
   else if n - 1 ≠ edgeCount n g.f ∨ maxDegree n g.f ≠ 2 then .error .assertion
-  else (partialOrbit n).mapM fun ops => applyScript g ops
+  else applyScripts g (partialOrbit n)
 
 /-- state threaded through `_depth_first` -/
 structure DfSt where
@@ -387,7 +403,7 @@ def depthFirstOrbit (iso : BMat → BMat → Bool) (fuel : Nat) (g : BMat) : Exc
   | .ok st =>
     let prefixes := st.pathList.flatMap fun p => (List.range p.length).map fun i => p.take (i + 1)
     let pathSet := prefixes.foldl (fun acc p => if acc.contains p then acc else acc ++ [p]) [[]]
-    match pathSet.mapM fun ops => applyScript g ops with
+    match applyScripts g pathSet with
     | .error e => .error e
     | .ok gs => .ok (pathSet, gs)
 
@@ -419,7 +435,7 @@ def labelFinder (nLabel nNode : Nat) (labelSet : Option (List (List Nat))) (exha
   else if nNode < 8 ∨ exhaustive then
     -- `rng.choice(perm[1:], n_label - 1)`; `n_label = 0` would ask for -1 samples (ValueError)
     if nLabel = 0 then .error .value
-    else if nMax = 1 ∧ nLabel - 1 > 0 then .error .value     -- choice from an empty population
+    else if nMax = 1 then .error .value     -- `perm[1:]` is empty: `choice` gives a 1-D array and `concatenate` fails
     else .ok (List.range nNode :: draws.take (nLabel - 1), nLabel - 1)
   else
     let set0 := match labelSet with | none => [List.range nNode] | some s => s
